@@ -19,9 +19,14 @@ Judge(e) == C19Clauses(e.got.build, e.got.probe)
 
 (* Model conformance (never a verdict): the algorithm-level BuildOutcome predicts whether    *)
 (* the real constructor accepts the configuration.                                            *)
+(* Validation cases (phase 2) carry in.vkind # "" and the raw hashring-file text they were     *)
+(* loaded from; the same clauses apply: an answer or an error in bounded time, no crash, and   *)
+(* a ring that was handed out answers with configured endpoints or errors ("never a partially  *)
+(* usable ring": got.probe covers every replica 0..rf-1 of several series).                    *)
 Drift(e) == e.got.build \in {"ok", "error"} /\
-            e.got.build # BuildOutcome(IF e.in.algo = "ketama" THEN "ketama" ELSE "hashmod",
-                                       e.in.eps, e.in.rf, e.in.ss.size)
+            e.got.build # (IF e.in.vkind # "" THEN BuildOutcomeV(e.in.vkind, e.in.n, e.in.rf)
+                           ELSE BuildOutcome(IF e.in.algo = "ketama" THEN "ketama" ELSE "hashmod",
+                                             e.in.eps, e.in.rf, e.in.ss.size))
 
 VARIABLE l
 TraceInit == l = 1
